@@ -33,3 +33,42 @@ Proof.
   intros A R1 R2 p1 p2 HA H1 H2 I1 E1 I2 E2.
   rewrite (proj1 (rref_canonical A R1 p1 HA H1 I1 E1)), (proj1 (rref_canonical A R2 p2 HA H2 I2 E2)). reflexivity.
 Qed.
+
+(** * further routes: every tuning constant is a free parameter of the route theorems *)
+From M4 Require Import Alg.M4RI Alg.M4RIProofs Alg.M4RINonFull Alg.TRSM Alg.TRSMRecProofs Alg.Strassen Alg.StrassenGen
+  Alg.StrassenProofs Alg.MPProofs.
+
+(** M4RI echelonisation: any two admissible table parameters, both values of [full] *)
+Lemma cfg_m4ri_k_indep k1 k2 full A : 1 <= k1 -> 1 <= k2 -> wf A -> m4ri_run k1 full A = m4ri_run k2 full A.
+Proof.
+  intros H1 H2 HA. destruct full.
+  - rewrite (m4ri_run_full_spec k1 A H1 HA), (m4ri_run_full_spec k2 A H2 HA). reflexivity.
+  - rewrite (m4ri_run_nonfull_canonical k1 A H1 HA), (m4ri_run_nonfull_canonical k2 A H2 HA). reflexivity.
+Qed.
+
+(** triangular solves: thresholds (cache-derived block size, trtri cut) and the Strassen cutoff do not matter *)
+Lemma cfg_trsm_lower_left_indep c1 c2 cut1 cut2 L B : wf B -> nr B <= length (rows L) ->
+  trsm_lower_left_rec c1 cut1 L B = trsm_lower_left_rec c2 cut2 L B.
+Proof. intros HB Hn. rewrite !trsm_lower_left_rec_spec by assumption. reflexivity. Qed.
+Lemma cfg_trsm_upper_left_indep c1 c2 cut1 cut2 U B : wf B -> nr B <= length (rows U) ->
+  trsm_upper_left_rec c1 cut1 U B = trsm_upper_left_rec c2 cut2 U B.
+Proof. intros HB Hn. rewrite !trsm_upper_left_rec_spec by assumption. reflexivity. Qed.
+Lemma cfg_trsm_lower_right_indep c1 c2 cut1 cut2 L B : wf B -> nc B <= length (rows L) ->
+  trsm_lower_right_rec c1 cut1 L B = trsm_lower_right_rec c2 cut2 L B.
+Proof. intros HB Hn. rewrite !trsm_lower_right_rec_spec by assumption. reflexivity. Qed.
+
+(** Strassen-Winograd front end: any two cutoffs >= 0 and default cutoffs (the latter derive from the cache sizes) *)
+Lemma cfg_mzd_mul_cutoff_indep base dflt1 dflt2 cutoff1 cutoff2 (same : bool) win Copt A B :
+  base_correct base ->
+  let B' := if same then A else B in
+  wf A -> wf B' -> nc A = nr B' -> 0 < nr A -> 0 < nc A -> 0 < nc B' -> (0 <= cutoff1)%Z -> (0 <= cutoff2)%Z ->
+  dest_ok Copt A B' ->
+  ub_guard (norm_cutoff dflt1 (Z.to_nat cutoff1)) A B' = false ->
+  ub_guard (norm_cutoff dflt2 (Z.to_nat cutoff2)) A B' = false ->
+  mzd_mul_gen base dflt1 cutoff1 same win Copt A B = mzd_mul_gen base dflt2 cutoff2 same win Copt A B.
+Proof.
+  intros Hb B' HA HB E P1 P2 P3 C1 C2 D G1 G2. unfold mzd_mul_gen.
+  rewrite (mzd_mul_spec base dflt1 gen_table Hb gen_table_checked sched_kinds cutoff1 same win Copt A B HA HB E P1 P2 P3 C1 D G1).
+  rewrite (mzd_mul_spec base dflt2 gen_table Hb gen_table_checked sched_kinds cutoff2 same win Copt A B HA HB E P1 P2 P3 C2 D G2).
+  reflexivity.
+Qed.
